@@ -834,6 +834,8 @@ structure Inv (s : Srv) : Prop where
   i6p : ∀ ip, s.env.xperm ip = true → s.perm ip = true
   /-- accepted nonces were issued -/
   i8 : ∀ n, n ∈ s.env.usedSeen → n < s.nextNonce
+  /-- every challenge a client received was issued -/
+  i8s : ∀ n, n ∈ s.env.seen → n < s.nextNonce
   /-- the client index only has entries for clients of the table -/
   i9 : ∀ x c, s.reg x = some c → x < s.nClients
   /-- a connection's client id is a client of the table -/
@@ -841,50 +843,51 @@ structure Inv (s : Srv) : Prop where
 
 theorem track_cases (g : Env) (now nc : Nat) (e : Event) (r : RespObs) :
     (∃ c ty k rr n, e = .hs c ty k rr ∧ r = .ch n ∧ (g.track now nc e r).lastCh = upd g.lastCh c (some n) ∧
-      (g.track now nc e r).prevCh = upd g.prevCh c (g.lastCh c) ∧ (g.track now nc e r).usedSeen = g.usedSeen) ∨
+      (g.track now nc e r).prevCh = upd g.prevCh c (g.lastCh c) ∧ (g.track now nc e r).usedSeen = g.usedSeen ∧
+      (g.track now nc e r).seen = n :: g.seen) ∨
     (∃ c ty k key nr n, e = .hs c ty k (.hmac key nr) ∧ r = .ok ∧ g.resolveN nr = some n ∧
       (g.track now nc e r).lastCh = g.lastCh ∧ (g.track now nc e r).prevCh = g.prevCh ∧
-      (g.track now nc e r).usedSeen = n :: g.usedSeen) ∨
+      (g.track now nc e r).usedSeen = n :: g.usedSeen ∧ (g.track now nc e r).seen = g.seen) ∨
     ((g.track now nc e r).lastCh = g.lastCh ∧ (g.track now nc e r).prevCh = g.prevCh ∧
-      (g.track now nc e r).usedSeen = g.usedSeen) := by
+      (g.track now nc e r).usedSeen = g.usedSeen ∧ (g.track now nc e r).seen = g.seen) := by
   cases e with
   | hs c ty k rr =>
     cases r with
-    | ch n => exact Or.inl ⟨c, ty, k, rr, n, rfl, rfl, rfl, rfl, rfl⟩
+    | ch n => exact Or.inl ⟨c, ty, k, rr, n, rfl, rfl, rfl, rfl, rfl, rfl⟩
     | ok =>
       cases rr with
-      | none => exact Or.inr (Or.inr ⟨rfl, rfl, rfl⟩)
-      | junk => exact Or.inr (Or.inr ⟨rfl, rfl, rfl⟩)
+      | none => exact Or.inr (Or.inr ⟨rfl, rfl, rfl, rfl⟩)
+      | junk => exact Or.inr (Or.inr ⟨rfl, rfl, rfl, rfl⟩)
       | hmac key nr =>
         cases h : g.resolveN nr with
         | none => right; right; simp [Env.track, Env.resolve, h]
         | some n =>
           right; left
           exact ⟨c, ty, k, key, nr, n, rfl, rfl, h, by simp [Env.track, Env.resolve, h], by simp [Env.track, Env.resolve, h],
-            by simp [Env.track, Env.resolve, h]⟩
-    | new x => exact Or.inr (Or.inr ⟨rfl, rfl, rfl⟩)
-    | fail => exact Or.inr (Or.inr ⟨rfl, rfl, rfl⟩)
-    | none => exact Or.inr (Or.inr ⟨rfl, rfl, rfl⟩)
-    | na => exact Or.inr (Or.inr ⟨rfl, rfl, rfl⟩)
-  | fc c ty => exact Or.inr (Or.inr ⟨rfl, rfl, rfl⟩)
-  | mal c => exact Or.inr (Or.inr ⟨rfl, rfl, rfl⟩)
-  | ban ip => exact Or.inr (Or.inr ⟨rfl, rfl, rfl⟩)
-  | unban ip => exact Or.inr (Or.inr ⟨rfl, rfl, rfl⟩)
-  | banp ip => exact Or.inr (Or.inr ⟨rfl, rfl, rfl⟩)
-  | bans ip => right; right; simp only [Env.track]; split <;> exact ⟨rfl, rfl, rfl⟩
-  | bl ip => exact Or.inr (Or.inr ⟨rfl, rfl, rfl⟩)
-  | unbl ip => exact Or.inr (Or.inr ⟨rfl, rfl, rfl⟩)
-  | blr g => exact Or.inr (Or.inr ⟨rfl, rfl, rfl⟩)
-  | unblr g => exact Or.inr (Or.inr ⟨rfl, rfl, rfl⟩)
-  | restart => exact Or.inr (Or.inr ⟨rfl, rfl, rfl⟩)
-  | refill ip => exact Or.inr (Or.inr ⟨rfl, rfl, rfl⟩)
-  | exp k => right; right; simp only [Env.track]; split <;> exact ⟨rfl, rfl, rfl⟩
-  | unexp k => right; right; simp only [Env.track]; split <;> exact ⟨rfl, rfl, rfl⟩
-  | wl ip => exact Or.inr (Or.inr ⟨rfl, rfl, rfl⟩)
-  | unwl ip => exact Or.inr (Or.inr ⟨rfl, rfl, rfl⟩)
-  | issue b => exact Or.inr (Or.inr ⟨rfl, rfl, rfl⟩)
-  | del k => right; right; simp only [Env.track]; split <;> exact ⟨rfl, rfl, rfl⟩
-  | strip k st => right; right; simp only [Env.track]; split <;> exact ⟨rfl, rfl, rfl⟩
+            by simp [Env.track, Env.resolve, h], by simp [Env.track, Env.resolve, h]⟩
+    | new x => exact Or.inr (Or.inr ⟨rfl, rfl, rfl, rfl⟩)
+    | fail => exact Or.inr (Or.inr ⟨rfl, rfl, rfl, rfl⟩)
+    | none => exact Or.inr (Or.inr ⟨rfl, rfl, rfl, rfl⟩)
+    | na => exact Or.inr (Or.inr ⟨rfl, rfl, rfl, rfl⟩)
+  | fc c ty => exact Or.inr (Or.inr ⟨rfl, rfl, rfl, rfl⟩)
+  | mal c => exact Or.inr (Or.inr ⟨rfl, rfl, rfl, rfl⟩)
+  | ban ip => exact Or.inr (Or.inr ⟨rfl, rfl, rfl, rfl⟩)
+  | unban ip => exact Or.inr (Or.inr ⟨rfl, rfl, rfl, rfl⟩)
+  | banp ip => exact Or.inr (Or.inr ⟨rfl, rfl, rfl, rfl⟩)
+  | bans ip => right; right; simp only [Env.track]; split <;> exact ⟨rfl, rfl, rfl, rfl⟩
+  | bl ip => exact Or.inr (Or.inr ⟨rfl, rfl, rfl, rfl⟩)
+  | unbl ip => exact Or.inr (Or.inr ⟨rfl, rfl, rfl, rfl⟩)
+  | blr g => exact Or.inr (Or.inr ⟨rfl, rfl, rfl, rfl⟩)
+  | unblr g => exact Or.inr (Or.inr ⟨rfl, rfl, rfl, rfl⟩)
+  | restart => exact Or.inr (Or.inr ⟨rfl, rfl, rfl, rfl⟩)
+  | refill ip => exact Or.inr (Or.inr ⟨rfl, rfl, rfl, rfl⟩)
+  | exp k => right; right; simp only [Env.track]; split <;> exact ⟨rfl, rfl, rfl, rfl⟩
+  | unexp k => right; right; simp only [Env.track]; split <;> exact ⟨rfl, rfl, rfl, rfl⟩
+  | wl ip => exact Or.inr (Or.inr ⟨rfl, rfl, rfl, rfl⟩)
+  | unwl ip => exact Or.inr (Or.inr ⟨rfl, rfl, rfl, rfl⟩)
+  | issue b => exact Or.inr (Or.inr ⟨rfl, rfl, rfl, rfl⟩)
+  | del k => right; right; simp only [Env.track]; split <;> exact ⟨rfl, rfl, rfl, rfl⟩
+  | strip k st => right; right; simp only [Env.track]; split <;> exact ⟨rfl, rfl, rfl, rfl⟩
 
 theorem track_hs_bans (g : Env) (now nc : Nat) (c : Nat) (ty : Ty) (k : CRef) (rr : RespRef) (r : RespObs) :
     (g.track now nc (.hs c ty k rr) r).xban = g.xban ∧ (g.track now nc (.hs c ty k rr) r).xperm = g.xperm := by
@@ -1049,8 +1052,8 @@ theorem Inv.preserved {s : Srv} (I : Inv s) (e : Event) : Inv (Tunnox.C03.step s
     rcases sp.reg x c h with a | ⟨_, b, _⟩
     · rw [q5]; have := I.i9 x c a; have := sp.ncl; omega
     · exact g10 c x (by rw [q1, b])
-  rcases track_cases s.env s.now s.nClients e r with ⟨c, ty, k, rr, n, he, hr, t1, t2, t3⟩ |
-      ⟨c, ty, k, key, nr, n, he, hr, hres, t1, t2, t3⟩ | ⟨t1, t2, t3⟩
+  rcases track_cases s.env s.now s.nClients e r with ⟨c, ty, k, rr, n, he, hr, t1, t2, t3, t4⟩ |
+      ⟨c, ty, k, key, nr, n, he, hr, hres, t1, t2, t3, t4⟩ | ⟨t1, t2, t3, t4⟩
   · -- a challenge was delivered on `c`
     obtain ⟨hn0, hn1, c0, ty0, k0, rr0, he0, hpc⟩ := sp.rch n hr
     rw [he] at he0
@@ -1063,7 +1066,14 @@ theorem Inv.preserved {s : Srv} (I : Inv s) (e : Event) : Inv (Tunnox.C03.step s
       intro d; rw [q10, t1]; rfl
     have hv : ∀ d, s''.env.prevCh d = if d = c then s.env.lastCh c else s.env.prevCh d := by
       intro d; rw [q10, t2]; rfl
-    refine ⟨g1, ?_, ?_, ?_, g5, g6, g6p, ?_, g9, g10⟩
+    have g8s : ∀ m, m ∈ s''.env.seen → m < s''.nextNonce := by
+      intro m hm
+      rw [q10, t4] at hm
+      rw [q2, hn1]
+      rcases List.mem_cons.mp hm with hm | hm
+      · omega
+      · have := I.i8s m hm; omega
+    refine ⟨g1, ?_, ?_, ?_, g5, g6, g6p, ?_, g8s, g9, g10⟩
     · intro d m h
       rw [q2, hn1]
       rw [hl, hv] at h
@@ -1147,7 +1157,12 @@ theorem Inv.preserved {s : Srv} (I : Inv s) (e : Event) : Inv (Tunnox.C03.step s
       rcases hp c1 m h with a | ⟨_, _, _, a4⟩
       · exact a
       · rcases a4 with a4 | a4 <;> rw [hr] at a4 <;> cases a4
-    refine ⟨g1, ?_, ?_, ?_, g5, g6, g6p, ?_, g9, g10⟩
+    have g8s : ∀ m, m ∈ s''.env.seen → m < s''.nextNonce := by
+      intro m hm
+      rw [q10, t4] at hm
+      rw [q2]
+      have := I.i8s m hm; omega
+    refine ⟨g1, ?_, ?_, ?_, g5, g6, g6p, ?_, g8s, g9, g10⟩
     · intro d m h
       rw [q10, t1, t2] at h
       rw [q2]
@@ -1172,7 +1187,12 @@ theorem Inv.preserved {s : Srv} (I : Inv s) (e : Event) : Inv (Tunnox.C03.step s
       · subst hm; have := I.i1 c m hp1; omega
       · have := I.i8 m hm; omega
   · -- the clients learned nothing new
-    refine ⟨g1, ?_, ?_, ?_, g5, g6, g6p, ?_, g9, g10⟩
+    have g8s : ∀ m, m ∈ s''.env.seen → m < s''.nextNonce := by
+      intro m hm
+      rw [q10, t4] at hm
+      rw [q2]
+      have := I.i8s m hm; omega
+    refine ⟨g1, ?_, ?_, ?_, g5, g6, g6p, ?_, g8s, g9, g10⟩
     · intro d m h
       rw [q10, t1, t2] at h
       rw [q2]
@@ -1196,7 +1216,7 @@ theorem Inv.preserved {s : Srv} (I : Inv s) (e : Event) : Inv (Tunnox.C03.step s
       have := I.i8 m hmem; omega
 
 theorem Inv.initial (now : Nat) (ips : List Nat) (nc burst : Nat) (secs : List SecState := []) : Inv (Srv.init now ips nc burst secs) := by
-  refine ⟨?_, ?_, ?_, ?_, ?_, ?_, ?_, ?_, ?_, ?_⟩ <;> simp [Srv.init, pend, pairOf]
+  refine ⟨?_, ?_, ?_, ?_, ?_, ?_, ?_, ?_, ?_, ?_, ?_⟩ <;> simp [Srv.init, pend, pairOf]
 
 /-! ### the observer's predicate on the model's own observations -/
 
@@ -1284,7 +1304,22 @@ theorem holdsStep_model {s : Srv} (I : Inv s) (e : Event) :
     exact h
   unfold holdsStep
   simp only [Bool.and_eq_true]
-  refine ⟨⟨?_, ?_⟩, ?_⟩
+  refine ⟨⟨⟨?_, ?_⟩, ?_⟩, ?_⟩
+  rotate_right
+  · -- H4
+    unfold h4
+    cases hr : r with
+    | ch n =>
+      obtain ⟨hn0, _⟩ := sp.rch n hr
+      simp only [proj, Bool.not_eq_true']
+      cases hc : s.env.seen.contains n with
+      | false => rfl
+      | true => have := I.i8s n (List.contains_iff_mem.mp hc); omega
+    | ok => rfl
+    | new x => rfl
+    | fail => rfl
+    | none => rfl
+    | na => rfl
   · -- H1
     unfold h1
     rw [List.all_eq_true]
